@@ -132,7 +132,7 @@ func c10Oracle(in c10In, l *c10Log, run c10Run) string {
 				valid = false
 			}
 		}
-		if honestHead && len(in.Faults) == 0 && !in.Fail && in.Count == 0 && valid && in.N > 0 {
+		if honestHead && len(in.Faults) == 0 && !in.Fail && in.Count == 0 && valid && in.N > 0 && in.H >= 1 && in.H <= 30 {
 			return fmt.Sprintf("honest tiles rejected: %v", run.err)
 		}
 		return ""
@@ -604,6 +604,7 @@ func runC10(c *hx.Ctx) {
 			nw = int64(r.Intn(5000))
 		case 2:
 			old = -int64(r.Intn(50))
+			nw = int64(r.Intn(3000))
 		case 3:
 			h = -r.Intn(2)
 		}
